@@ -190,13 +190,15 @@ mod verif_hook {
     #[cfg(postcard_verif)]
     impl<const N: usize> super::CobsAccumulator<N> {
         /// Number of bytes currently buffered (the raw fill level).
+        #[allow(clippy::unnecessary_cast)]
         pub fn verif_idx(&self) -> usize {
-            self.idx
+            self.idx as usize
         }
 
         /// The bytes currently buffered.
+        #[allow(clippy::unnecessary_cast)]
         pub fn verif_buffered(&self) -> &[u8] {
-            &self.buf[..self.idx.min(N)]
+            &self.buf[..(self.idx as usize).min(N)]
         }
     }
 }
